@@ -1,8 +1,288 @@
-import Isotp.Process
+import Isotp.Proofs.C16
 /-
-  C16 — property theorems (see DESIGN.md §6). Helper lemmas live in Isotp/Proofs.
+  C16 — "Configuration is validated up front" (validation half).
+
+  `Address`, `AsymmetricAddress` and the params dictionary accept exactly the combinations
+  and value ranges the documentation lists and reject everything else with `ValueError`.
+  The documentation-level predicates (`Spec.docValidAddress`, `Spec.docValidParams`) live in
+  Isotp/Spec/Config.lean; helper lemmas in Isotp/Proofs/C16.lean.
+
+  Scope notes.
+  * Every statement quantifies over *all* `AddrArgs` / `ParamArgs`, i.e. over every `PyVal`
+    (None, bool, int, finite float, nan, ±inf, str, other object) in every field.
+  * 29-bit identifiers: neither the documentation nor the code bounds `txid`/`rxid` above in
+    the 29-bit modes; `Spec.isCanId` says so explicitly (see `addr_29bit_id_unbounded`).
+  * The two float products of `Params.validate` are evaluated by Python and handed to the
+    model (`ParamArgs.prod`, `ParamArgs.ovrScaledFinite`, DESIGN §3.1); the theorems are
+    parametric in them. Consequently ints so large that Python's int→float conversion raises
+    `OverflowError` inside `validate()` (e.g. `override_receiver_stmin = 10**400`) are outside
+    what these theorems cover (reported as a finding).
 -/
 namespace Isotp.C16
-open Isotp State
+open Isotp Isotp.Spec
+
+/-- only used to let `decide` check the concrete examples below -/
+local instance : DecidableEq (Except PyExc Half) := fun a b =>
+  match a, b with
+  | .ok x, .ok y => if h : x = y then isTrue (h ▸ rfl) else isFalse (fun e => h (Except.ok.inj e))
+  | .error x, .error y => if h : x = y then isTrue (h ▸ rfl) else isFalse (fun e => h (Except.error.inj e))
+  | .ok _, .error _ => isFalse (fun e => nomatch e)
+  | .error _, .ok _ => isFalse (fun e => nomatch e)
+
+local instance : DecidableEq (Except PyExc Addr) := fun a b =>
+  match a, b with
+  | .ok x, .ok y => if h : x = y then isTrue (h ▸ rfl) else isFalse (fun e => h (Except.ok.inj e))
+  | .error x, .error y => if h : x = y then isTrue (h ▸ rfl) else isFalse (fun e => h (Except.error.inj e))
+  | .ok _, .error _ => isFalse (fun e => nomatch e)
+  | .error _, .ok _ => isFalse (fun e => nomatch e)
+
+/-! ## 1–2. Address -/
+
+/-- `Address.validate` accepts exactly what addressing.rst documents. -/
+theorem validateAddr_iff_doc (a : AddrArgs) : validateAddr a = Spec.docValidAddress a :=
+  validateAddr_eq_doc a
+
+/-- A refused `Address(...)` raises `ValueError`, never anything else. -/
+theorem mkAddress_error_is_ValueError (a : AddrArgs) (e : PyExc)
+    (h : mkAddress a = .error e) : e = .ValueError :=
+  mkAddress_error a e h
+
+/-- `Address(...)` returns an object exactly for the documented-valid arguments, and the
+    object stores the given values (`docHalf`: mode, the five optional ints, the 29-bit
+    bases of the fixed modes, the two flags). -/
+theorem mkAddress_ok_iff (a : AddrArgs) (h : Half) :
+    mkAddress a = .ok h ↔
+      ∃ m, a.mode = some m ∧ Spec.docValidAddress a = true ∧ h = docHalf a m := by
+  rw [← validateAddr_eq_doc]
+  exact mkAddress_ok_iff' a h
+
+/-- Total: either an object or `ValueError`, decided by the documented predicate. -/
+theorem mkAddress_rejects_iff (a : AddrArgs) :
+    mkAddress a = .error .ValueError ↔ Spec.docValidAddress a = false := by
+  rw [← validateAddr_eq_doc]
+  unfold mkAddress
+  cases hm : a.mode with
+  | none => simp [validateAddr, hm]
+  | some m => cases hv : validateAddr a <;> simp
+
+/-- What the table promises, read off the constructed object: the parameters required for
+    (mode, kind) are present; address bytes are ≤ 0xFF; 11-bit identifiers are ≤ 0x7FF;
+    in the modes that use them `txid ≠ rxid`. -/
+theorem mkAddress_ok_facts (a : AddrArgs) (h : Half) (hk : mkAddress a = .ok h) :
+    ∃ k, Spec.kindOf h.rxOnly h.txOnly = some k ∧
+      (∀ p ∈ Spec.required h.mode k, (halfField h p).isSome = true) ∧
+      (∀ p ∈ [AParam.ta, .sa, .ae], ∀ n, halfField h p = some n → n ≤ 0xFF) ∧
+      (Spec.is11bit h.mode = true →
+        ∀ p ∈ [AParam.txid, .rxid], ∀ n, halfField h p = some n → n ≤ 0x7FF) ∧
+      (Spec.usesIds h.mode = true → ∀ i j, h.txid = some i → h.rxid = some j → i ≠ j) := by
+  obtain ⟨m, hm, hv, rfl⟩ := (mkAddress_ok_iff a h).1 hk
+  exact docHalf_facts a m hm hv
+
+/-! ### non-vacuity: one accepted and one rejected `Address(...)` per mode -/
+
+-- Normal_11bits
+example : mkAddress { mode := some .n11, txid := .int 0x456, rxid := .int 0x123 } =
+    .ok { mode := .n11, txid := some 0x456, rxid := some 0x123, ta := none, sa := none, ae := none,
+          physId := 0, funcId := 0, rxOnly := false, txOnly := false } := by decide
+example : mkAddress { mode := some .n11, txid := .int 0x456 } = .error .ValueError := by decide  -- rxid missing
+example : mkAddress { mode := some .n11, txid := .int 0x800, rxid := .int 1 } = .error .ValueError := by decide
+example : mkAddress { mode := some .n11, txid := .int 5, rxid := .int 5 } = .error .ValueError := by decide
+example : mkAddress { mode := some .n11, txid := .int 1, rxid := .bool true } = .error .ValueError := by decide -- True == 1
+example : docValidAddress { mode := some .n11, txid := .int 0x456, txOnly := true } = true := by decide
+example : docValidAddress { mode := some .n11, rxid := .int 0x123, rxOnly := true } = true := by decide
+example : docValidAddress { mode := some .n11, txid := .int 1, rxid := .int 2, rxOnly := true, txOnly := true } = false := by decide
+example : docValidAddress { mode := some .n11, txid := .float 1 1, rxid := .int 2 } = false := by decide
+example : docValidAddress { mode := some .n11, txid := .str 0, rxid := .int 2 } = false := by decide
+-- a provided-but-unneeded byte is still range-checked
+example : docValidAddress { mode := some .n11, txid := .int 1, rxid := .int 2, ta := .int 256 } = false := by decide
+-- Normal_29bits (no upper bound on the identifier)
+theorem addr_29bit_id_unbounded :
+    docValidAddress { mode := some .n29, txid := .int (2 ^ 40), rxid := .int 1 } = true := by decide
+example : docValidAddress { mode := some .n29, txid := .int (-1), rxid := .int 1 } = false := by decide
+-- NormalFixed_29bits
+example : mkAddress { mode := some .nf29, ta := .int 0xAA, sa := .int 0x55 } =
+    .ok { mode := .nf29, txid := none, rxid := none, ta := some 0xAA, sa := some 0x55, ae := none,
+          physId := 0x18DA0000, funcId := 0x18DB0000, rxOnly := false, txOnly := false } := by decide
+example : mkAddress { mode := some .nf29, ta := .int 0xAA } = .error .ValueError := by decide
+example : docValidAddress { mode := some .nf29, ta := .int 0xAA, sa := .int 0x55, txOnly := true } = true := by decide
+example : docValidAddress { mode := some .nf29, ta := .none, sa := .int 0x55, rxOnly := true } = false := by decide
+-- Extended_11bits / Extended_29bits
+example : docValidAddress { mode := some .e11, txid := .int 0x456, rxid := .int 0x123, ta := .int 0xAA, sa := .int 0x55 } = true := by decide
+example : docValidAddress { mode := some .e11, txid := .int 0x456, rxid := .int 0x123, ta := .int 0xAA } = false := by decide
+example : docValidAddress { mode := some .e11, txid := .int 0x456, ta := .int 0xAA, txOnly := true } = true := by decide
+example : docValidAddress { mode := some .e11, rxid := .int 0x123, sa := .int 0x55, rxOnly := true } = true := by decide
+example : docValidAddress { mode := some .e11, rxid := .int 0x123, ta := .int 0x55, rxOnly := true } = false := by decide
+example : docValidAddress { mode := some .e29, txid := .int 0x12345678, rxid := .int 0x123, ta := .int 0, sa := .int 255 } = true := by decide
+example : docValidAddress { mode := some .e29, txid := .int 0x12345678, rxid := .int 0x123, ta := .int 0, sa := .int (-1) } = false := by decide
+-- Mixed_11bits
+example : docValidAddress { mode := some .m11, txid := .int 0x456, rxid := .int 0x123, ae := .int 0x99 } = true := by decide
+example : docValidAddress { mode := some .m11, txid := .int 0x456, rxid := .int 0x123 } = false := by decide
+example : docValidAddress { mode := some .m11, rxid := .int 0x123, ae := .int 0x99, rxOnly := true } = true := by decide
+-- Mixed_29bits
+example : mkAddress { mode := some .m29, ta := .int 0xAA, sa := .int 0x55, ae := .int 0x99, physId := some 0x1F123456 } =
+    .ok { mode := .m29, txid := none, rxid := none, ta := some 0xAA, sa := some 0x55, ae := some 0x99,
+          physId := 0x1F120000, funcId := 0x18CD0000, rxOnly := false, txOnly := false } := by decide
+example : docValidAddress { mode := some .m29, ta := .int 0xAA, sa := .int 0x55, txOnly := true } = false := by decide
+-- not an AddressingMode
+example : mkAddress { mode := none, txid := .int 1, rxid := .int 2 } = .error .ValueError := by decide
+
+/-! ## 3. AsymmetricAddress and symmetric addresses -/
+
+/-- `AsymmetricAddress(tx, rx)` is accepted exactly when `tx` is a `tx_only` address and `rx`
+    an `rx_only` one; the result holds the two halves. -/
+theorem mkAsym_iff (tx rx : Half) (a : Addr) :
+    mkAsym tx rx = .ok a ↔ tx.txOnly = true ∧ rx.rxOnly = true ∧ a = { tx := tx, rx := rx } := by
+  unfold mkAsym
+  cases tx.txOnly <;> cases rx.rxOnly <;> simp [eq_comm]
+
+theorem mkAsym_error_is_ValueError (tx rx : Half) (e : PyExc)
+    (h : mkAsym tx rx = .error e) : e = .ValueError := by
+  unfold mkAsym at h
+  cases h1 : tx.txOnly <;> cases h2 : rx.rxOnly <;> simp [h1, h2] at h <;> exact h.symm
+
+theorem mkAsym_rejects_iff (tx rx : Half) :
+    mkAsym tx rx = .error .ValueError ↔ ¬ (tx.txOnly = true ∧ rx.rxOnly = true) := by
+  unfold mkAsym
+  cases tx.txOnly <;> cases rx.rxOnly <;> simp
+
+/-- A symmetric address (`set_address(Address)`) must be a full address. -/
+theorem mkSym_iff (h : Half) (a : Addr) :
+    mkSym h = .ok a ↔ h.rxOnly = false ∧ h.txOnly = false ∧ a = { tx := h, rx := h } := by
+  unfold mkSym
+  cases h.rxOnly <;> cases h.txOnly <;> simp [eq_comm]
+
+theorem mkSym_error_is_ValueError (h : Half) (e : PyExc)
+    (he : mkSym h = .error e) : e = .ValueError := by
+  unfold mkSym at he
+  cases h1 : h.rxOnly <;> cases h2 : h.txOnly <;> simp [h1, h2] at he <;> exact he.symm
+
+/-- End to end: the two halves of an accepted `AsymmetricAddress` built from keyword
+    arguments satisfy the Partial-Tx resp. Partial-Rx column of the table. -/
+theorem asym_from_args (ta ra : AddrArgs) (tx rx : Half) (a : Addr)
+    (h1 : mkAddress ta = .ok tx) (h2 : mkAddress ra = .ok rx) (h3 : mkAsym tx rx = .ok a) :
+    Spec.docValidAddress ta = true ∧ Spec.docValidAddress ra = true ∧
+    Spec.kindOf ta.rxOnly ta.txOnly = some .txOnly ∧ Spec.kindOf ra.rxOnly ra.txOnly = some .rxOnly := by
+  obtain ⟨m1, hm1, hv1, rfl⟩ := (mkAddress_ok_iff ta tx).1 h1
+  obtain ⟨m2, hm2, hv2, rfl⟩ := (mkAddress_ok_iff ra rx).1 h2
+  obtain ⟨ht, hr, -⟩ := (mkAsym_iff _ _ a).1 h3
+  simp only [docHalf] at ht hr
+  refine ⟨hv1, hv2, ?_, ?_⟩
+  · have := hv1
+    unfold docValidAddress at this
+    cases hrx : ta.rxOnly <;> simp_all [kindOf]
+  · have := hv2
+    unfold docValidAddress at this
+    cases htx : ra.txOnly <;> simp_all [kindOf]
+
+-- the example of addressing.rst: NormalFixed_29bits for transmission, Mixed_11bits for reception
+example :
+    (do let tx ← mkAddress { mode := some .nf29, ta := .int 0xAA, sa := .int 0x55, txOnly := true }
+        let rx ← mkAddress { mode := some .m11, rxid := .int 0x123, ae := .int 0x99, rxOnly := true }
+        mkAsym tx rx).isOk = true := by decide
+example :
+    (do let tx ← mkAddress { mode := some .nf29, ta := .int 0xAA, sa := .int 0x55 }   -- not tx_only
+        let rx ← mkAddress { mode := some .m11, rxid := .int 0x123, ae := .int 0x99, rxOnly := true }
+        mkAsym tx rx) = .error .ValueError := by decide
+example :
+    (do let h ← mkAddress { mode := some .n11, txid := .int 1, rxid := .int 2 }
+        mkSym h).isOk = true := by decide
+example :
+    (do let h ← mkAddress { mode := some .n11, txid := .int 1, txOnly := true }
+        mkSym h) = .error .ValueError := by decide
+
+/-! ## 4. Params -/
+
+/-- `Params.validate` accepts exactly what implementation.rst documents. -/
+theorem validateParams_iff_doc (p : ParamArgs) : validateParams p = Spec.docValidParams p :=
+  validateParams_eq_doc p
+
+-- accepted
+example : docValidParams {} = true := by decide                                   -- the defaults
+example : docValidParams
+    { stmin := .int 0xFF, blocksize := .int 0, txPadding := .int 0xAA,
+      txDl := .int 64, txMinLen := .int 12, canFd := .bool true, brs := .bool true,
+      overrideStmin := .float 1 1000, wftmax := .int 5, defaultTat := .int 1 } = true := by decide
+example : docValidParams
+    { txDl := .int 8, rlBitrate := .int 320, rlWindow := .float 1 5, prod := .float 64 1 } = true := by decide                                     -- exactly one frame per window
+example : docValidParams { overrideStmin := .int 0 } = true := by decide
+-- rejected: wrong type
+example : docValidParams { stmin := .float 1 1 } = false := by decide
+example : docValidParams { canFd := .int 1 } = false := by decide
+example : docValidParams { tFc := .float 1000 1 } = false := by decide
+example : docValidParams { overrideStmin := .bool true } = false := by decide
+example : docValidParams { txDl := .none } = false := by decide
+example : docValidParams { rlWindow := .str 0 } = false := by decide
+-- rejected: out of range
+example : docValidParams { stmin := .int 256 } = false := by decide
+example : docValidParams { blocksize := .int (-1) } = false := by decide
+example : docValidParams { txPadding := .int 256 } = false := by decide
+example : docValidParams { txDl := .int 10 } = false := by decide
+example : docValidParams { txMinLen := .int 9 } = false := by decide
+example : docValidParams { txDl := .int 8, txMinLen := .int 12 } = false := by decide   -- min length above the link size
+example : docValidParams { tCf := .int (-1) } = false := by decide
+example : docValidParams { wftmax := .int (-1) } = false := by decide
+example : docValidParams { maxFrameSize := .int (-1) } = false := by decide
+example : docValidParams { defaultTat := .int 2 } = false := by decide
+example : docValidParams { rlBitrate := .int 0 } = false := by decide
+example : docValidParams { rlWindow := .int 0 } = false := by decide
+example : docValidParams { rlWindow := .posInf, prod := .posInf } = false := by decide
+example : docValidParams { rlWindow := .nan, prod := .nan } = false := by decide
+example : docValidParams { overrideStmin := .float (-1) 10 } = false := by decide
+example : docValidParams { overrideStmin := .posInf } = false := by decide
+example : docValidParams { overrideStmin := .float 1 1, ovrScaledFinite := false } = false := by decide
+example : docValidParams
+    { txDl := .int 8, rlBitrate := .int 315, rlWindow := .float 1 5, prod := .float 63 1 } = false := by decide                                    -- 63 bits < one 8-byte frame
+example : docValidParams
+    { txDl := .int 64, rlBitrate := .int 1000, rlWindow := .float 1 2, prod := .float 500 1 } = false := by decide
+
+/-! ## 5. Accepted params give a valid `Cfg` -/
+
+/-- If `Params.validate` accepts `p`, the configuration record the layer then runs with
+    (`cfgOfParams`: integer fields as stored, `rlBitMax = ⌊bitrate * window⌋` computed exactly
+    from the product) satisfies `Cfg.valid`, the hypothesis of the protocol theorems.
+    `floatWf p.prod` is the data invariant of `PyVal.float` (denominator > 0). -/
+theorem accepted_params_give_valid_cfg (p : ParamArgs) (ovrNs : Option Nat) (winNs : Nat)
+    (hwf : floatWf p.prod) (h : validateParams p = true) :
+    (cfgOfParams p ovrNs winNs).valid = true :=
+  cfgOfParams_valid p ovrNs winNs hwf h
+
+/-- The same from the documentation side. -/
+theorem doc_params_give_valid_cfg (p : ParamArgs) (ovrNs : Option Nat) (winNs : Nat)
+    (hwf : floatWf p.prod) (h : Spec.docValidParams p = true) :
+    (cfgOfParams p ovrNs winNs).valid = true :=
+  cfgOfParams_valid p ovrNs winNs hwf (by rw [validateParams_eq_doc]; exact h)
+
+/-- The individual range facts, for use without going through `Cfg`. -/
+theorem accepted_params_ranges (p : ParamArgs) (h : validateParams p = true) :
+    txDlOk p.txDl = true ∧ validTxDl p.txDl.intVal.toNat = true ∧
+    p.stmin.intVal.toNat ≤ 255 ∧ p.blocksize.intVal.toNat ≤ 255 ∧
+    (∀ n, optNat p.txPadding = some n → n ≤ 255) ∧
+    (∀ m, optNat p.txMinLen = some m → validMinLen m = true ∧ m ≤ p.txDl.intVal.toNat) :=
+  params_ranges p h
+
+-- the hypotheses are satisfiable, and the invariant is needed
+example : floatWf ({} : ParamArgs).prod ∧ validateParams {} = true := by decide
+example : (cfgOfParams {} none 200000000).valid = true := by decide
+example : (cfgOfParams {} none 200000000).rlBitMax = 20000000 := by decide
+example : (cfgOfParams { prod := .float 129 2 } none 0).rlBitMax = 64 := by decide   -- ⌊64.5⌋
+example : validateParams { prod := .float 5 0 } = true ∧
+    (cfgOfParams { prod := .float 5 0 } none 0).valid = false := by decide            -- ill-formed float (den = 0)
 
 end Isotp.C16
+
+#print axioms Isotp.C16.validateAddr_iff_doc
+#print axioms Isotp.C16.mkAddress_error_is_ValueError
+#print axioms Isotp.C16.mkAddress_ok_iff
+#print axioms Isotp.C16.mkAddress_rejects_iff
+#print axioms Isotp.C16.mkAddress_ok_facts
+#print axioms Isotp.C16.addr_29bit_id_unbounded
+#print axioms Isotp.C16.mkAsym_iff
+#print axioms Isotp.C16.mkAsym_error_is_ValueError
+#print axioms Isotp.C16.mkAsym_rejects_iff
+#print axioms Isotp.C16.mkSym_iff
+#print axioms Isotp.C16.mkSym_error_is_ValueError
+#print axioms Isotp.C16.asym_from_args
+#print axioms Isotp.C16.validateParams_iff_doc
+#print axioms Isotp.C16.accepted_params_give_valid_cfg
+#print axioms Isotp.C16.doc_params_give_valid_cfg
+#print axioms Isotp.C16.accepted_params_ranges
